@@ -5,7 +5,10 @@ package headers
 // Contracts checked by /verif/govc (see /verif/DESIGN.md). Comment-only file.
 
 // Frame only: parsing writes the receiver's fields and fresh memory.
+// C10, completeness for Basic credentials: decoded "user:password" credentials are refused for
+// their shape only when they contain no ':' at all (a password may itself contain ':').
 //@ func (h *Authorization) Unmarshal
+//@   assert[C10]@return#6 strcount(string(tmp), ":") == 0
 //@   modifies fields(h), fresh
 
 // Frame of the Transport parser, used where Transports.Unmarshal calls it in a loop; its own
